@@ -76,6 +76,55 @@ struct RecHarness : vh::Harness {
       }
       return "ok";
     }
+    if (w[0] == "bigrt" && w.size() == 2) {
+      // a LARGE record given by segments `m` (the magic word), `x<n>` (n bytes 'x'), `r<n>` (n bytes of a fixed
+      // pseudo-random stream without aligned magic), joined by '+': written alone into a fresh stream and read
+      // back with the real writer / reader.  Too large for the list model to execute: the model side answers
+      // what theorem C01_roundtrip states for every record below 2^29 bytes ("ok <len>"), so any other answer
+      // is a divergence AND an oracle failure.
+      std::string rec;
+      uint64_t lcg = 0x9e3779b97f4a7c15ULL;
+      std::string spec = w[1];
+      size_t a = 0;
+      while (a <= spec.size()) {
+        size_t b = spec.find('+', a);
+        if (b == std::string::npos) b = spec.size();
+        std::string seg = spec.substr(a, b - a);
+        if (seg == "m") { uint32_t m = kMagic; rec.append(reinterpret_cast<const char *>(&m), 4); }
+        else if (seg.size() > 1 && seg[0] == 'x') rec.append(strtoull(seg.c_str() + 1, nullptr, 10), 'x');
+        else if (seg.size() > 1 && seg[0] == 'r') {
+          size_t n = strtoull(seg.c_str() + 1, nullptr, 10);
+          for (size_t i = 0; i < n; ++i) { lcg = lcg * 6364136223846793005ULL + 1442695040888963407ULL; rec.push_back(static_cast<char>((lcg >> 56) | 1)); }
+        } else return "bad-op";
+        a = b + 1;
+      }
+      std::string sink;
+      try {
+        dmlc::MemoryStringStream ms(&sink);
+        dmlc::RecordIOWriter wr(&ms);
+        wr.WriteRecord(rec);
+        if (wr.except_counter() != aligned_magic_count(rec)) return "counter " + std::to_string(wr.except_counter());
+      } catch (const dmlc::Error &) {
+        return "err:check";
+      }
+      if (sink.size() % 4 != 0) return "length-not-multiple-of-4";
+      std::string back;
+      try {
+        dmlc::MemoryStringStream rs(&sink);
+        dmlc::RecordIOReader reader(&rs);
+        if (!reader.NextRecord(&back)) return "eos";
+        if (back != rec) {
+          size_t i = 0;
+          while (i < back.size() && i < rec.size() && back[i] == rec[i]) ++i;
+          return "differs len=" + std::to_string(back.size()) + " first-mismatch=" + std::to_string(i);
+        }
+        std::string more;
+        if (reader.NextRecord(&more)) return "extra-record";
+      } catch (const dmlc::Error &) {
+        return "invalid";
+      }
+      return "ok " + std::to_string(rec.size());
+    }
     if (w[0] == "raw" && w.size() == 2) {
       std::string r = vh::unhex(w[1]);
       strm->Write(r.data(), r.size());
@@ -206,7 +255,10 @@ struct RecHarness : vh::Harness {
     for (size_t i = 0; i < c.ops.size(); ++i) {
       auto w = vh::split_ws(c.ops[i]);
       const std::string &r = res[i];
-      if (w[0] == "fixedrt") {
+      if (w[0] == "bigrt") {
+        if (r.compare(0, 3, "ok ") != 0)
+          fail->push_back("class=none prop=C01 large record " + w[1] + " does not round-trip: " + r.substr(0, 200));
+      } else if (w[0] == "fixedrt") {
         if (r != show(written))
           fail->push_back("class=none prop=C01 round trip through exact-size MemoryFixedSizeStream buffers fails: " +
                           r.substr(0, 200));
@@ -482,6 +534,21 @@ int main(int argc, char **argv) {
     c.ops.push_back("dump");
     c.ops.push_back("readall");
     R.run_case(c);
+  }
+  // (5b) large records around power-of-two part sizes (a part = the run between two aligned magic words)
+  {
+    std::vector<size_t> sizes = {1u << 16, 1u << 20, (1u << 24) + 8};
+    if (R.thorough()) { sizes.push_back(1u << 26); sizes.push_back((1u << 28) + 4096); }
+    for (size_t n : sizes) {
+      Case c;
+      c.kind = "big";
+      std::string N = std::to_string(n), N3 = std::to_string(n + 3), Nm = std::to_string(n - 4);
+      c.ops.push_back("bigrt x" + N);
+      c.ops.push_back("bigrt x4+m+r" + N3);
+      c.ops.push_back("bigrt m+x" + Nm);
+      c.ops.push_back("bigrt r" + N + "+m+m+x" + N + "+m+x5");
+      R.run_case(c);
+    }
   }
   // (6) size limit
   {
